@@ -59,7 +59,7 @@ inductive Stack where
   | bufio (buffered : Bytes)
   /-- `ConnSniffer` (over an exhausted `prefixedConn`): sniff buffer and whether `dataError` is set -/
   | sniffer (buf : Bytes) (poison : Bool)
-deriving Repr
+deriving Repr, DecidableEq
 
 def Stack.content : Stack → Bytes
   | .plain => []
@@ -180,7 +180,7 @@ def engineCopy (env : Env) (fuel : Nat) (st : Stack) (b : Base) : Out :=
 structure Ev where
   t : Nat
   data : Bytes
-deriving Repr
+deriving Repr, DecidableEq
 
 inductive Fin where
   | eof | reset
@@ -384,7 +384,7 @@ def front (cfg : Cfg) (s : Script) : Front :=
 structure Deliv where
   t : Nat
   data : Bytes
-deriving Repr
+deriving Repr, DecidableEq
 
 /-- one direction run to its natural end (nothing from the other direction interferes):
 deliveries, end time, `err == nil`. -/
